@@ -1,4 +1,4 @@
-From Verif Require Import Lib.Base Sched.Elect Sched.ElectSpec Sched.ElectLemmas Sched.ElectProofs Sched.ElectProofs2 Sched.CommitteeProofs Sched.EngineProofs Sched.ElectCheck.
+From Verif Require Import Lib.Base Sched.Elect Sched.ElectSpec Sched.ElectLemmas Sched.ElectProofs Sched.ElectProofs2 Sched.CommitteeProofs Sched.EngineProofs Sched.ElectCheck Sched.SizeProofs Sched.Beacon Sched.BeaconProofs.
 From Coq Require Import Permutation.
 
 (* Every elected validator is a registered, unexpired, unfrozen node with the
@@ -62,6 +62,7 @@ Theorem elect_deterministic :
     i_perm_e i = i_perm_e i' -> i_perm_n i = i_perm_n i' -> i_perm_c i = i_perm_c i' ->
     i_current i = i_current i' -> i_fv261 i = i_fv261 i' -> i_vrf i = i_vrf i' ->
     i_base i = i_base i' -> i_changed i = i_changed i' -> i_slashed i = i_slashed i' ->
+    i_slashes i = i_slashes i' ->
     run_epoch i = run_epoch i'.
 Proof. exact ElectProofs2.elect_deterministic. Qed.
 Print Assumptions elect_deterministic.
@@ -207,12 +208,134 @@ Print Assumptions committee_ok_b_sound.
 Theorem impl_ok_b_sound :
   forall i vals ups comms,
     impl_ok_b i (EOk vals ups comms) = true ->
-    election_ok (i_params i) (sort_by e_addr (i_ents i)) (i_epoch i) (i_nodes i) (val_extra i) vals /\
+    election_ok (i_params i) (sort_by e_addr (post_ents i)) (i_epoch i) (post_nodes i) (val_extra i) vals /\
     Permutation (apply_updates (i_current i) ups) (powers_of vals) /\
-    comms_ok (i_fv261 i) (i_params i) (sort_by e_addr (i_ents i)) (map ent_of vals) (i_epoch i)
-      (committee_nodes i (sort_by n_id (i_nodes i))) (vrf_blocked i) (i_rts i) (committee_srcs i) comms.
+    comms_ok (i_fv261 i) (i_params i) (sort_by e_addr (post_ents i)) (map ent_of vals) (i_epoch i)
+      (committee_nodes i (sort_by n_id (post_nodes i))) (vrf_blocked i) (i_rts i) (committee_srcs i) comms.
 Proof. exact ElectCheck.impl_ok_b_sound. Qed.
 Print Assumptions impl_ok_b_sound.
+
+(* Exact size: in the success case the number of validators is EXACTLY
+   min(sum over the eligible entities of min(its nodes in the shuffled list,
+   MaxValidatorsPerEntity), max(1, MaxValidators)) -- entropy and VRF alike. *)
+Theorem validators_exact_count :
+  forall p ents pe cands sh vals vents,
+    NoDup (map n_cons sh) ->
+    is_perm pe (length (usort (map n_ent cands))) ->
+    elect_core p ents pe cands sh = VOk vals vents ->
+    len vals = N.min (sum (map (ent_quota p sh) (usort (map n_ent cands)))) (N.max 1 (p_max p)).
+Proof. exact SizeProofs.validators_exact_count. Qed.
+Print Assumptions validators_exact_count.
+
+(* Exact size: a committee has exactly GroupSize workers and GroupBackupSize backups. *)
+Theorem committee_exact_size :
+  forall fv p ents vents epoch rt cnodes blocked sw sb ms,
+    elect_committee fv p ents vents epoch rt cnodes blocked sw sb = Some ms ->
+    len ms = r_gsize rt + r_bsize rt /\
+    len (filter (fun m => fst m =? ROLE_WORKER) ms) = r_gsize rt /\
+    len (filter (fun m => fst m =? ROLE_BACKUP) ms) = r_bsize rt.
+Proof. exact SizeProofs.committee_exact_size. Qed.
+Print Assumptions committee_exact_size.
+
+(* A whole block (trigger + slashing + election + diff + committees): whenever
+   it elects -- on an epoch change or because stake was slashed inside the
+   epoch -- every eligibility clause holds against the POST-slash stakes and
+   freezes, the updates are the diff against the tracked set and every
+   committee is acceptable. *)
+Theorem run_epoch_sound :
+  forall i vals ups comms,
+    run_epoch i = EOk vals ups comms ->
+    let ents := sort_by e_addr (post_ents i) in
+    let nodes := sort_by n_id (post_nodes i) in
+    fst (should_elect (i_base i) (i_epoch i) (i_changed i) (post_slashed i)) = true /\
+    Forall (validator_ok (i_params i) ents (i_epoch i) nodes) vals /\
+    len vals <= N.max 1 (p_max (i_params i)) /\ p_min (i_params i) <= len vals /\ 1 <= len vals /\
+    ups = sort_by fst (diff_validators (i_current i) (powers_of vals)) /\
+    exists vents,
+      comms_ok (i_fv261 i) (i_params i) ents vents (i_epoch i) (committee_nodes i nodes)
+               (vrf_blocked i) (i_rts i) (committee_srcs i) comms.
+Proof. exact SizeProofs.run_epoch_sound. Qed.
+Print Assumptions run_epoch_sound.
+
+(* Re-election after a slash: no validator of an entity whose post-slash escrow
+   no longer covers its claims, none that is frozen or expired. *)
+Theorem reelect_after_slash_excludes :
+  forall i vals ups comms,
+    run_epoch i = EOk vals ups comms -> p_bypass (i_params i) = false ->
+    (forall kv, In kv vals -> stake_ok (sort_by e_addr (post_ents i)) (ent_of kv) = true) /\
+    (forall kv, In kv vals ->
+       exists n, In n (post_nodes i) /\ n_id n = fst (fst (snd kv)) /\ n_freeze n = 0 /\ i_epoch i <= n_exp n).
+Proof. exact SizeProofs.reelect_after_slash_excludes. Qed.
+Print Assumptions reelect_after_slash_excludes.
+
+(* What a slash does to the escrow the election reads. *)
+Theorem slash_one_escrow :
+  forall addr amt ents,
+    NoDup (map e_addr ents) ->
+    escrow_of (map (slash_one addr amt) ents) addr = escrow_of ents addr - amt.
+Proof. exact SizeProofs.slash_one_escrow. Qed.
+Print Assumptions slash_one_escrow.
+
+(* Beacon (VRF backend) determinism: the VRFProve transactions of different
+   nodes may be delivered in any order; the resulting beacon state -- hence the
+   next alpha, PrevState, entropy and eligibility -- is the same. *)
+Theorem prove_order_irrelevant :
+  forall bp ops ops',
+    Permutation ops ops' ->
+    Forall (fun o => prove_node o <> None) ops ->
+    NoDup (map prove_node ops) ->
+    forall s, brun bp s ops = brun bp s ops'.
+Proof. exact BeaconProofs.prove_order_irrelevant. Qed.
+Print Assumptions prove_order_irrelevant.
+
+(* Node statuses after any history of blocks, proofs and (de)registrations. *)
+Theorem brun_inv : forall bp ops s, binv s -> binv (brun bp s ops).
+Proof. exact BeaconProofs.brun_inv. Qed.
+Print Assumptions brun_inv.
+
+(* A node that (re-)registered in the current epoch or the previous one is not
+   past ElectionEligibleAfter, whatever proofs it submitted. *)
+Theorem late_registration_ineligible :
+  forall bp s0 ops id el reg,
+    binv s0 ->
+    let s := brun bp s0 ops in
+    In (id, (el, reg)) (b_nodes s) -> b_epoch s < EPOCH_INVALID ->
+    b_epoch s <= reg + 1 -> ~ (el < b_epoch s).
+Proof. exact BeaconProofs.late_registration_ineligible. Qed.
+Print Assumptions late_registration_ineligible.
+
+(* ... and with the VRF backend (no weak alpha allowed) every committee member
+   is past ElectionEligibleAfter: a late node can never be elected in that epoch. *)
+Theorem vrf_committee_member_seasoned :
+  forall i v vals ups comms rid ms role id,
+    run_epoch i = EOk vals ups comms -> i_vrf i = Some v -> v_weak v = false ->
+    In (rid, Some ms) comms -> In (role, id) ms ->
+    exists n, In n (post_nodes i) /\ n_id n = id /\ n_elig n < i_epoch i.
+Proof. exact BeaconProofs.vrf_committee_member_seasoned. Qed.
+Print Assumptions vrf_committee_member_seasoned.
+
+(* What an epoch transition hands to the election: PrevState = the proofs
+   collected under the previous alpha and its quality; entropy = f(epoch, block). *)
+Theorem transition_feeds_election :
+  forall bp s h blk fe v,
+    b_future s = Some (fe, h) -> b_vrf s = Some v ->
+    let s' := fst (bstep bp s (OBegin h blk)) in
+    b_epoch s' = fe /\ b_beacon s' = Some (fe, blk) /\
+    exists v', b_vrf s' = Some v' /\ vs_prev v' = Some (vs_pi v, vs_hq v) /\ vs_pi v' = [] /\
+               vs_epoch v' = fe /\ vs_after v' = h + bp_delay bp /\
+               vs_hq v' = (bp_thresh bp <=? len (vs_pi v)).
+Proof. exact BeaconProofs.transition_feeds_election. Qed.
+Print Assumptions transition_feeds_election.
+
+(* A proof is accepted only from a registered node, for the current alpha's
+   epoch, strictly after the submission delay, and only if it verifies. *)
+Theorem prove_accepted_spec :
+  forall bp s h node ep beta valid,
+    snd (bstep bp s (OProve h node ep beta valid)) = 0 ->
+    exists v, b_vrf s = Some v /\ vs_after v < h /\ aget node (b_nodes s) <> None /\
+              ep = vs_epoch v /\ valid = true.
+Proof. exact BeaconProofs.prove_accepted_spec. Qed.
+Print Assumptions prove_accepted_spec.
 
 (* Observation: with MaxValidators = 0 (rejected at genesis, not by a
    governance parameter change) one validator is still elected; hence the
